@@ -156,7 +156,7 @@ def units(run: Run):
         us.append((5, f"pairgraph#{i}", gv, (), 0.0, 0))
     for n in ((6,) if quick else (6, 7)):
         for tag, gv in A.larger_n_samples(n):
-            if quick and not tag.startswith(("matching-shift", "path-shift", "two-cliques+")):
+            if quick and not tag.startswith(("matching-shift", "path-shift", "star+convex")):
                 continue
             us.append((n, f"n{n}:{tag}", gv, ("pairs",) if (n == 6 and not quick) else (), 0.0, 0))
     width = 2 if quick else 8
